@@ -3,6 +3,7 @@ package main
 // Contract files: //@ lines in <pkg>/verif_contracts.go (build tag verif).
 
 import (
+	"sync"
 	"sort"
 	"fmt"
 	"go/ast"
@@ -74,6 +75,7 @@ type Contract struct {
 	Assumes  []*Clause // assumed at entry, never checked at call sites (domain restrictions; listed in the evidence)
 	TrustKinds []string // obligation kinds not generated for this function (assumed; listed in the evidence)
 	tiMerged bool
+	mergeOnce sync.Once
 }
 
 type ContractSet struct {
